@@ -329,7 +329,14 @@ pub fn eval_function(
         Function::Asin => args.one_number()?.asin().to_degrees(),
         Function::Acos => args.one_number()?.acos().to_degrees(),
         Function::Atan => args.one_number()?.atan().to_degrees(),
-        Function::Random => eval_state.context.get_rng().borrow_mut().random::<f32>(),
+        Function::Random => {
+            if !args.is_empty() {
+                return Err(SvgdxError::ParseError(
+                    "random() takes no arguments".to_string(),
+                ));
+            }
+            eval_state.context.get_rng().borrow_mut().random::<f32>()
+        }
         Function::RandInt => {
             let (min, max) = args.number_pair()?;
             let (min, max) = (min as i32, max as i32);
